@@ -4,6 +4,7 @@ import (
 	"encoding/hex"
 	"fmt"
 	"math/rand"
+	"os"
 
 	"verifharness/lnmodel"
 
@@ -68,6 +69,9 @@ func NewWSim(rng *rand.Rand, w *World) *WSim {
 
 func (s *WSim) logf(f string, a ...any) {
 	s.Log = append(s.Log, fmt.Sprintf(f, a...))
+	if os.Getenv("VERIF_DEBUG_LOG") != "" {
+		fmt.Fprintf(os.Stderr, "WSIM op%d %s\n", s.NOps, s.Log[len(s.Log)-1])
+	}
 	if len(s.Log) > 300 {
 		s.Log = s.Log[len(s.Log)-200:]
 	}
@@ -248,6 +252,12 @@ func (s *WSim) Directed() {
 	ht, err = s.OpSendP2PKFlag(a, b, 15, url, false, true)
 	recv(ht, err, true)
 	ht, err = s.OpSendHTLC(a, 9, url, false)
+	recv(ht, err, false)
+	// locked sends of exactly a denomination the wallet holds (400 = 256 + 128 + 16 was just
+	// minted): the swap has no change output
+	ht, err = s.OpSendP2PKFlag(a, b, 16, url, false, false)
+	recv(ht, err, false)
+	ht, err = s.OpSendHTLC(a, 128, url, false)
 	recv(ht, err, false)
 	s.OpMelt(a, 150, url, lnmodel.PayPlan{Answer: lnmodel.ASucceeded})
 	if tr := s.trusted(a); len(tr) > 1 {
